@@ -41,7 +41,16 @@ def apply_cache_op(cache, sessions, op):
             cache[bytearray(op[1].encode())] = sessions[op[2]]
             return ("ok",)
         if kind == "get":
+            called_at = SEAMS.now
             s = cache[bytearray(op[1].encode())]
+            # the cache's own record of when this ID was (last) stored,
+            # against the clock when the lookup was *called* (the clock may
+            # move on while the lookup runs)
+            sid = bytes(op[1].encode())
+            ts = [e[1] for e in cache.entriesList if e and e[0] == sid]
+            if ts and called_at - max(ts) > cache.maxAge:
+                return ("hit-expired", getattr(s, "label", "?"),
+                        called_at - max(ts))
             return ("hit", getattr(s, "label", "?"))
         if kind == "tick":
             SEAMS.now += op[1]
@@ -144,6 +153,9 @@ def cache_combo(item):
             why = "thread raised %r" % [w.exc for w in s.workers if w.exc]
         elif s.inv_fail:
             why = s.inv_fail
+        elif any(h[3][0] == "hit-expired" for h in hist):
+            why = "served an entry the cache itself recorded as older " \
+                "than maxAge: %r" % ([(h[0], h[3]) for h in hist],)
         elif not linearizable(hist, lambda ops: sequential_results(
                 max_entries, prepop, ops)):
             why = "history not linearizable: %r" % (
@@ -560,6 +572,20 @@ def run(res, tier, seed):
                     if tier == "quick" and g and len(b1) > 1:
                         continue
                     items.append((me, [("A", "s0")], bodies, bound))
+    # clock moving while stores are in flight: one thread stores, the other
+    # advances the clock around its own store and then looks an ID up
+    half = MAXAGE // 2 + 1
+    n_skew = 0
+    for t1 in ([("set", "A", "s1")], [("set", "B", "s2")],
+               [("set", "A", "s1"), ("get", "A")]):
+        for a in (1, half, MAXAGE + 1):
+            for b in (1, half, MAXAGE + 1):
+                for x in ("A", "B"):
+                    for y in ("A", "B"):
+                        t2 = [("tick", a), ("set", x, "s3"), ("tick", b),
+                              ("get", y)]
+                        items.append((3, [], [t1, t2], bound))
+                        n_skew += 1
     sch = 0
     incomplete = 0
     for st in pmap(cache_combo, items, chunksize=2):
@@ -572,7 +598,8 @@ def run(res, tier, seed):
             res.violation({"part": "cache-concurrent", "why": f["why"][:50]},
                           f, {"part": "cache-concurrent", "case": f})
     res.section("cache_concurrent", combos=len(items), schedules=sch,
-                preemption_bound=bound, capped=incomplete)
+                preemption_bound=bound, capped=incomplete,
+                clock_skew_combos=n_skew)
     res.sample({"harness": "SessionCache", "threads": items[5][2],
                 "prepopulated": items[5][1], "maxEntries": items[5][0]})
     # RSA
